@@ -157,6 +157,22 @@ class RefState:
     def f_custom_identity(self, ops):
         return list(ops)
 
+    def dominated_positive(self, ops):
+        """The positive-duration operations of ops that are dominated under
+        the literal criterion (also defined when ops holds zero durations)."""
+        min_end = {}
+        for j, p in ops:
+            for x in self.m[j][p]:
+                e = self.start(j, x) + self.d[j][p]
+                if x not in min_end or e < min_end[x]:
+                    min_end[x] = e
+        return [
+            (j, p)
+            for (j, p) in ops
+            if self.d[j][p] > 0
+            and not any(self.start(j, x) < min_end[x] for x in self.m[j][p])
+        ]
+
     def apply_filter(self, name, ops):
         return getattr(self, "f_" + name)(ops)
 
